@@ -1,4 +1,4 @@
-CONSTANTS MaxN = 4 FMaxN = 4
+CONSTANTS MaxN = 4 FMaxN = 4 RingN = {5, 6, 7}
 INIT Init
 NEXT Next
 INVARIANT Emitted
